@@ -71,7 +71,12 @@ MCArgs(name, h, dep) ==
          UNION {{[curve |-> c, u0 |-> u] : u \in OnGrid(c)} : c \in {x \in Arcs : Mine(h, x)}}
     [] name = "GeoIntersectCurved" ->
          {[A |-> A, B |-> B] : A \in {x \in Arcs \cup FarArcs : Mine(h, x)}, B \in Arcs \cup FarArcs}
-    [] name = "GeoLength" -> {[curve |-> c] : c \in {x \in Lines : Mine(h, x)}}
+    [] name = "GeoLength" ->
+         \* weight u^k, rule and node count: only combinations whose rule is exact for u^k on a span (the speed is
+         \* constant there); the closed rule samples span ends, where the derivative of a polyline jumps: not used
+         {[curve |-> c, k |-> kn[1], nnodes |-> kn[2], method |-> m] :
+             c \in {x \in Lines \cup Zigzags : Mine(h, x)}, kn \in {<<0, 0>>, <<1, 0>>, <<1, 3>>, <<2, 3>>, <<2, 4>>},
+             m \in {"default", "open-newton-cotes", "chebyshev", "gauss-legendre"}}
     [] name = "GeoProject" ->
          UNION {{[curve |-> c, px |-> q[1], py |-> q[2], elev |-> e] : q \in QueryPts,
                                                                 e \in (IF Len(c.X) = 2 THEN {0, 1} ELSE {0})}
